@@ -122,3 +122,106 @@ Example C44_hypothesis_satisfiable_with_factory_state :
   frame_F _ _ _ _ _ _ prog_factory_const
   /\ trace_shared _ _ _ _ _ _ prog_factory_const [EApply tt; ESub 0; ERun 0 tt; ERun 0 tt] = [(0, tt, 5%Z); (0, tt, 6%Z)].
 Proof. split; [exact factory_const_frame | vm_compute; reflexivity]. Qed.
+
+(* ---- connections, and benign normalisation of a factory cell (Ops/ClosureAct.v) ------------- *)
+From RxVerif Require Import Ops.ClosureAct.
+
+(* The property text interleaves subscriptions AND CONNECTIONS.  Ops/ClosureAct.v extends the model
+   (Ops/Closure.v unchanged) by an action on an application -- connect() on a connectable, no
+   subscription involved: [aprog] = a levelled program + the action's code act_f / act_a (it may
+   write factory- and application-level cells), histories get the event [AAct k x].  For EVERY
+   such program in which no code below the factory, the action included, writes a factory-level
+   cell, and EVERY history of applications, subscriptions, handler runs and connections: shared
+   operator value = fresh operator values. *)
+Theorem C44_generic_with_connections :
+  forall (Src In Act Out F A S : Type) (q : aprog Src In Act Out F A S),
+    frame_F _ _ _ _ _ _ (ap_base _ _ _ _ _ _ _ q) ->
+    (forall f a x, act_f _ _ _ _ _ _ _ q f a x = f) ->
+    forall h, trace_shared_act _ _ _ _ _ _ _ q h = trace_fresh_act _ _ _ _ _ _ _ q h.
+Proof. exact act_generic_thm. Qed.
+Print Assumptions C44_generic_with_connections.
+
+(* the extension is conservative: on histories without connections both semantics are those of
+   Ops/Closure.v *)
+Theorem C44_connections_conservative :
+  forall (Src In Act Out F A S : Type) (q : aprog Src In Act Out F A S) h,
+    trace_shared_act _ _ _ _ _ _ _ q (map AEv h) = trace_shared _ _ _ _ _ _ (ap_base _ _ _ _ _ _ _ q) h
+    /\ trace_fresh_act _ _ _ _ _ _ _ q (map AEv h) = trace_fresh _ _ _ _ _ _ (ap_base _ _ _ _ _ _ _ q) h.
+Proof. exact act_conservative. Qed.
+Print Assumptions C44_connections_conservative.
+
+(* conversely: a factory-level `connection` cell written by connect() (every other piece of code
+   respects the frame) distinguishes shared from fresh -- connecting the first application makes
+   the second, never connected, deliver *)
+Theorem C44_factory_connection_refuted :
+  let h := [AEv (EApply tt); AEv (EApply tt); AEv (ESub 0); AEv (ESub 1); AAct 0 tt;
+            AEv (ERun 0 1%Z); AEv (ERun 1 2%Z)] in
+  frame_F _ _ _ _ _ _ (ap_base _ _ _ _ _ _ _ prog_connect_factory)
+  /\ trace_shared_act _ _ _ _ _ _ _ prog_connect_factory h = [(0, 1%Z, Some 1%Z); (1, 2%Z, Some 2%Z)]
+  /\ trace_fresh_act _ _ _ _ _ _ _ prog_connect_factory h = [(0, 1%Z, Some 1%Z); (1, 2%Z, None)].
+Proof. exact connect_factory_refuted. Qed.
+Print Assumptions C44_factory_connection_refuted.
+
+(* non-vacuity: the connection flag one level down (application level, written by connect, gating
+   the deliveries; a factory-level argument is read by the output) satisfies the hypotheses, and
+   its shared run with two applications connected at different instants is not trivial *)
+Example C44_connections_hypothesis_satisfiable :
+  frame_F _ _ _ _ _ _ (ap_base _ _ _ _ _ _ _ prog_connect_app)
+  /\ (forall f a x, act_f _ _ _ _ _ _ _ prog_connect_app f a x = f)
+  /\ trace_shared_act _ _ _ _ _ _ _ prog_connect_app
+       [AEv (EApply tt); AEv (EApply tt); AEv (ESub 0); AEv (ESub 1); AEv (ERun 0 1%Z);
+        AAct 0 tt; AEv (ERun 0 2%Z); AEv (ERun 1 3%Z); AAct 1 tt; AEv (ERun 1 4%Z)]
+     = [(0, 1%Z, None); (0, 2%Z, Some 7%Z); (1, 3%Z, None); (1, 4%Z, Some 9%Z)].
+Proof. exact connect_app_witness. Qed.
+
+(* BENIGN WRITTEN FACTORY CELLS.  A factory cell may be written if the writes cannot be observed:
+   for EVERY program and EVERY [norm : F -> F] such that every write to F leaves [norm f] unchanged
+   ([frame_F_upto]) and all other code reads F only through norm ([reads_F_through]: g f = g (norm f)
+   for app_a, sub_a, sub_s, run_a, run_s, run_o), shared = fresh in EVERY history.  (norm = identity
+   is C44_generic.) *)
+Theorem C44_generic_up_to_normalisation :
+  forall (Src In Out F A S : Type) (p : lprog Src In Out F A S) (norm : F -> F),
+    frame_F_upto _ _ _ _ _ _ p norm -> reads_F_through _ _ _ _ _ _ p norm ->
+    forall h, trace_shared _ _ _ _ _ _ p h = trace_fresh _ _ _ _ _ _ p h.
+Proof. exact benign_generic. Qed.
+Print Assumptions C44_generic_up_to_normalisation.
+
+(* the shape of the one allowlisted site (C44_benign_sites; skip_last_with_time_: subscribe does
+   `duration = to_timedelta(duration)`): subscribe REPLACES the factory state by its idempotent
+   normalisation, apply and the handlers leave it alone, everything reads it through norm *)
+Theorem C44_benign_normalisation :
+  forall (Src In Out F A S : Type) (p : lprog Src In Out F A S) (norm : F -> F),
+    (forall f, norm (norm f) = norm f) ->
+    (forall f src, app_f _ _ _ _ _ _ p f src = f) ->
+    (forall f a, sub_f _ _ _ _ _ _ p f a = norm f) ->
+    (forall f a s i, run_f _ _ _ _ _ _ p f a s i = f) ->
+    reads_F_through _ _ _ _ _ _ p norm ->
+    forall h, trace_shared _ _ _ _ _ _ p h = trace_fresh _ _ _ _ _ _ p h.
+Proof. exact benign_normalisation. Qed.
+Print Assumptions C44_benign_normalisation.
+
+(* non-vacuity: F = Z REALLY written by subscribe (frame_F fails, C44_generic does not apply) and
+   read, normalised, by the output *)
+Example C44_benign_hypotheses_satisfiable :
+  (forall f, Z.abs (Z.abs f) = Z.abs f)
+  /\ (forall f src, app_f _ _ _ _ _ _ prog_norm_duration f src = f)
+  /\ (forall f a, sub_f _ _ _ _ _ _ prog_norm_duration f a = Z.abs f)
+  /\ (forall f a s i, run_f _ _ _ _ _ _ prog_norm_duration f a s i = f)
+  /\ reads_F_through _ _ _ _ _ _ prog_norm_duration Z.abs.
+Proof. exact norm_duration_hyps. Qed.
+
+Example C44_benign_witness :
+  ~ frame_F _ _ _ _ _ _ prog_norm_duration
+  /\ trace_shared _ _ _ _ _ _ prog_norm_duration [EApply tt; EApply tt; ESub 0; ERun 0 1%Z; ESub 1; ERun 1 2%Z]
+     = [(0, 1%Z, 4%Z); (1, 2%Z, 5%Z)].
+Proof. exact norm_duration_witness. Qed.
+
+(* the reading hypothesis cannot be dropped: the same cell captured RAW by subscribe -- the first
+   subscription anywhere changes what a subscription of ANOTHER application captures *)
+Theorem C44_normalised_cell_read_raw_refuted :
+  let h := [EApply tt; EApply tt; ESub 0; ESub 1; ERun 1 0%Z] in
+  frame_F_upto _ _ _ _ _ _ prog_raw_duration Z.abs
+  /\ trace_shared _ _ _ _ _ _ prog_raw_duration h = [(1, 0%Z, 3%Z)]
+  /\ trace_fresh _ _ _ _ _ _ prog_raw_duration h = [(1, 0%Z, (-3)%Z)].
+Proof. exact raw_duration_refuted. Qed.
+Print Assumptions C44_normalised_cell_read_raw_refuted.
